@@ -16,6 +16,7 @@ From Coq Require Import List ZArith Bool.
 Import ListNotations.
 Require Import Gram.Model.Term Gram.Model.DeBruijn Gram.Model.Eval Gram.Proofs.RewriteProofs.
 Require Import Gram.Model.Parser Gram.Model.ParserPost Gram.Spec.ScopeSpec Gram.Proofs.AlphaProofs.
+Require Import Gram.Spec.Typing Gram.Oracle.Infer Gram.Proofs.CtxProofs Gram.Proofs.WeakenProofs Gram.Proofs.WeakenInfer Gram.Proofs.RewriteTyping.
 
 Theorem C19_if_true : forall e e', step (TIf TTrue e e') = Some e.
 Proof. exact if_true_step. Qed.
@@ -54,3 +55,37 @@ Proof. exact scope_spec_swap. Qed.
 Check C19_swap_with_fresh_name : forall a b t, is_placeholder a = false -> is_placeholder b = false ->
   scope_spec (rn (swap_names a b) t) = scope_spec t.
 Print Assumptions C19_swap_with_fresh_name.
+
+(* Acceptance AND result, for the verified checker and the evaluator model (Proofs/RewriteTyping.v): the wrappers of
+   the property - `if true then e else e'`, the immediately applied annotated identity, an unused definition, naming
+   the expression with a definition - applied at the root or in head position, chained and undone in any order
+   (`rw`), leave the set of accepted types unchanged and the outcome unchanged: the same value, stuck for the same
+   reason, or both diverge. (An unused definition must itself evaluate to a value: `z : int = 1 / 0; 3` is accepted
+   and stops on the division - R3_stuck_definition - which is the language's eager semantics of definitions.) *)
+Theorem C19_rewrites_preserve_acceptance_and_outcome : forall G a b, wf_offsets G -> ctx_hf' G -> rw G a b ->
+  (forall T, accepts G a T <-> accepts G b T) /\ outcome_equiv a b.
+Proof. exact rw_sound. Qed.
+Check C19_rewrites_preserve_acceptance_and_outcome : forall G a b, wf_offsets G -> ctx_hf' G -> rw G a b ->
+  (forall T, accepts G a T <-> accepts G b T) /\ outcome_equiv a b.
+Print Assumptions C19_rewrites_preserve_acceptance_and_outcome.
+
+Theorem C19_if_true_outcome : forall e e', outcome_equiv e (TIf TTrue e e').
+Proof. exact R1_outcome. Qed.
+Check C19_if_true_outcome : forall e e', outcome_equiv e (TIf TTrue e e').
+Print Assumptions C19_if_true_outcome.
+
+Theorem C19_identity_wrapper_outcome : forall A e, outcome_equiv e (idw A e).
+Proof. exact R2_outcome. Qed.
+Check C19_identity_wrapper_outcome : forall A e, outcome_equiv e (idw A e).
+Print Assumptions C19_identity_wrapper_outcome.
+
+Theorem C19_unused_definition_outcome : forall A d dv e, hole_free e = true -> evals d dv -> is_value dv = true -> outcome_equiv e (unused A d e).
+Proof. exact R3_outcome. Qed.
+Check C19_unused_definition_outcome : forall A d dv e, hole_free e = true -> evals d dv -> is_value dv = true -> outcome_equiv e (unused A d e).
+Print Assumptions C19_unused_definition_outcome.
+
+Theorem C19_named_expression_outcome : forall A e, hole_free e = true -> outcome_equiv e (named A e).
+Proof. exact R4_outcome. Qed.
+Check C19_named_expression_outcome : forall A e, hole_free e = true -> outcome_equiv e (named A e).
+Print Assumptions C19_named_expression_outcome.
+
